@@ -800,6 +800,12 @@ def worker_cases(seed, n):
             if arr and t == arr[-1][0]: t += 10
             arr.append((t, f"b{i}x{j}", r.choice("nnnnhl"), "t", r.choice("eeeeppr")))
         cases.append((f"eb{i}", r.choice([100, 150]), f"0e{r.choice([1, 1, 2])}x{r.choice([60, 90])}", arr, []))
+    # a flood of filter-REJECTED events that starts inside the window and goes on long after it: the pending batch must still be
+    # delivered within a bounded delay after the window ends (`off:F:ms` items; the model's run is unaffected by rejected events)
+    for i in range(max(6, n // 16)):
+        thr = r.choice([120, 170]); arr = [(0, f"f{i}x0", "n", "t", "p")]
+        if r.random() < 0.5: arr.append((r.choice([10, 30, 60]), f"f{i}x1", r.choice("nl"), "t", r.choice("pr")))
+        cases.append((f"fl{i}", thr, 0, arr, [(r.choice([40, 80, thr - 20]), "F", r.choice([600, 900]))]))
     return cases
 
 def worker_oracle(thr, arr, sent, got, errs, filtered, changes=()):
@@ -822,12 +828,15 @@ def worker_oracle(thr, arr, sent, got, errs, filtered, changes=()):
         if first is None: continue
         # the throttle values configured at any time between the first event and the delivery (run-time changes included)
         vals = [thr]; cur = thr
-        for off, v in changes:
+        for off, v in [c for c in changes if len(c) == 2]:
             if off * 1000 <= first: cur = v; vals = [cur]
             elif off * 1000 <= tg: vals.append(v)
         bound = min(vals)
         if tg < first + bound * 1000:
             out.append(("C02", f"batch {ids} reached the handler {(first + bound * 1000 - tg) / 1000:.2f} ms before its window ({bound} ms after its first event, the smallest throttle configured meanwhile) had elapsed"))
+        # bounded delay under rejected traffic (flood cases only; real time, so the margin is generous: 350 ms)
+        if any(len(c) == 3 for c in changes) and tg > first + thr * 1000 + 350000:
+            out.append(("C02", f"batch {ids} reached the handler {(tg - first - thr * 1000) / 1000:.0f} ms after its window ({thr} ms) had ended, held back while filter-rejected events kept arriving"))
     return out
 
 def worker_stream(pid, ctx):
@@ -835,7 +844,7 @@ def worker_stream(pid, ctx):
     s = core.StreamResult("worker-rt")
     d = core.WORK / pid / "worker-rt"; d.mkdir(parents=True, exist_ok=True)
     cases = worker_cases(ctx["seed"], n)
-    lines = [f"{cid} {thr} {hm} " + ",".join([f"{t}:{i}:{p}:{k}:{v}" for (t, i, p, k, v) in a] + [f"{off}:T:{v}" for off, v in ch]) for cid, thr, hm, a, ch in cases]
+    lines = [f"{cid} {thr} {hm} " + ",".join([f"{t}:{i}:{p}:{k}:{v}" for (t, i, p, k, v) in a] + [(f"{c[0]}:F:{c[2]}" if len(c) == 3 else f"{c[0]}:T:{c[1]}") for c in ch]) for cid, thr, hm, a, ch in cases]
     (d / "cases.txt").write_text("\n".join(lines) + "\n")
     def run_all(ls):
         p = subprocess.run([str(core.TARGET / "wxthrottle")], input="\n".join(ls) + "\n", capture_output=True, text=True, timeout=3000)
@@ -863,7 +872,7 @@ def worker_stream(pid, ctx):
         for tg, ids in got:
             if not any(a[2] == "u" for a in arr if a[1] in ids) and all(x in sent for x in ids):
                 if not changes: worst_late = max(worst_late, tg - (min(sent[x] for x in ids) + thr * 1000))
-        s.bump(f"throttle={thr}"); s.bump("error-burst, full error channel" if isinstance(hm, str) else "slow-handler" if hm else "instant-handler"); s.bump("throttle-changes-at-run-time" if changes else "fixed-throttle"); s.bump(f"batches={min(len(got), 4)}")
+        s.bump(f"throttle={thr}"); s.bump("error-burst, full error channel" if isinstance(hm, str) else "slow-handler" if hm else "instant-handler"); s.bump("rejected-event flood" if any(len(c) == 3 for c in changes) else "throttle-changes-at-run-time" if changes else "fixed-throttle"); s.bump(f"batches={min(len(got), 4)}")
         if len(got) >= 2: s.nontrivial.add(hashlib.md5((lines[i].split(" ", 1)[1] + canon).encode()).digest()[:8])
         if i % max(1, len(cases) // 3) == 0 and len(s.samples) < 3: s.samples.append({"case": lines[i], "impl": line[:300], "model": mo[:300]})
     # a composition mismatch in a deterministic case depends on wall-clock scheduling: it counts only if it persists in 3 re-runs
